@@ -189,15 +189,22 @@ Definition forward (n : net) (x : dna) : list Z :=
 
 Record call := Call {
   cA : nat; cX : dna; cmotifs : list dna;
-  cnet : net; ctarget : list Z; cmask : list bool; cabs : bool;   (* cabs: |d| instead of d^2 *)
+  cnet : net; ctarget : list Z; cmask : list bool;
+  ckind : nat;   (* element-wise loss(y, y_hat): 0 (y-y_hat)^2, 1 |y-y_hat|, 2 the asymmetric
+                    2*relu(y-y_hat) + relu(y_hat-y), which tells the two arguments apart *)
   ctn : Z; ctd : Z; cmax : Z; cfuel : nat }.
 
 Definition nmask (c : call) : Z := Z.of_nat (length (filter (fun b : bool => b) (cmask c))).
 
 Definition net_S (c : call) (x : dna) : Z :=
   sumZ (map2 (fun (td : Z * Z) (mk : bool) =>
-                let d := fst td - snd td in
-                if mk then (if cabs c then Z.abs d else d * d) else 0)
+                let d := fst td - snd td in      (* y - y_hat *)
+                if mk then match ckind c with
+                           | O => d * d
+                           | S O => Z.abs d
+                           | _ => 2 * Z.max 0 d + Z.max 0 (- d)
+                           end
+                else 0)
              (combine (ctarget c) (forward (cnet c) x)) (cmask c)).
 
 Definition closs (c : call) (x : dna) : Z := ctd c * net_S c x.
@@ -225,7 +232,16 @@ Definition model_trace (c : call) : res (list (nat * nat)) :=
 
 Definition outcome_eqb : outcome -> outcome -> bool := res_eqb dna_eqb.
 
-Definition case := (call * outcome)%type.
+(* one correspondence case is a SEQUENCE of calls made one after the other in one process,
+   re-using the caller's objects (X, y, mask, motif list, network) wherever two calls of the
+   sequence have equal contents; with each call: the implementation's outcome and whether all
+   the caller's objects were bit-identical to their contents afterwards.  The model is a pure
+   function, so every call is judged on its nominal input: state leaking from one call into
+   the next (stale caches, caller data modified in place) shows as a disagreement. *)
+Definition case := list (call * outcome * bool).
 
-Definition check_case (c : case) : nat :=
-  let '(cl, o) := c in verdict (outcome_eqb o (model cl)) (spec_ok cl o).
+Definition check_call (c : call * outcome * bool) : nat :=
+  let '(cl, o, unchanged) := c in
+  verdict (unchanged && outcome_eqb o (model cl)) (spec_ok cl o).
+
+Definition check_case (cs : case) : nat := fold_right (fun c m => Nat.max (check_call c) m) 0%nat cs.
